@@ -490,3 +490,146 @@ pub proof fn lemma_entry_no_candidates(g: G, c: Set<usize>)
 {
     assert forall|d: usize| !c.contains(d) by { if c.contains(d) { lemma_dom_entry(g, d); } }
 }
+
+// ---------------------------------------------------------------------------------------------
+// dominance frontiers
+
+pub open spec fn idoms_ok(g: G, idoms: Seq<Option<usize>>) -> bool { idoms.len() == g.len() && idom_ok(g, idoms, g.len() as int) }
+
+// x is in the frontier of a because of one of the predecessors in `seenp`
+pub open spec fn visited_i(g: G, i: usize, seenp: Set<usize>, a: usize) -> bool {
+    exists|q: usize| seenp.contains(q) && #[trigger] dom(g, a, q) && !sdom(g, a, i)
+}
+pub open spec fn df_done(g: G, df: Seq<HashSet<usize>>, upto: int) -> bool {
+    df.len() == g.len()
+    && forall|a: usize, x: usize| a < g.len() ==> (#[trigger] df[a as int]@.contains(x) <==> x < upto && x < g.len() && in_df(g, a, x))
+}
+pub open spec fn df_mid(g: G, df: Seq<HashSet<usize>>, i: usize, seenp: Set<usize>, j: usize, k: usize, walking: bool) -> bool {
+    df.len() == g.len()
+    && forall|a: usize, x: usize| a < g.len() ==> (#[trigger] df[a as int]@.contains(x) <==>
+        (x < i && in_df(g, a, x)) || (x == i && (visited_i(g, i, seenp, a) || (walking && dom(g, a, j) && !dom(g, a, k)))))
+}
+
+// a node whose only predecessor is q has an empty frontier membership: nothing has it in its frontier
+proof fn lemma_single_pred_descent(g: G, i: usize, q: usize, s: Seq<usize>)
+    requires wf(g), i < g.len(), forall|x: usize| g[i as int].contains(x) <==> x == q, dom(g, i, q), is_path(g, s), s.last() == i
+    ensures false
+    decreases s.len()
+{
+    if s.len() == 1 {
+        assert(s[0] == 0 && i == 0);
+        assert(g[0].contains(q));
+    } else {
+        let e = s.len() - 2;
+        assert(g[s[e + 1] as int].contains(s[e]));
+        assert(s[e] == q);
+        lemma_prefix_path(g, s, e);
+        let t = prefix_to(s, e);
+        assert(t.contains(i));
+        let m = choose|m: int| 0 <= m < t.len() && t[m] == i;
+        assert(s[m] == i);
+        lemma_prefix_path(g, s, m);
+        lemma_single_pred_descent(g, i, q, prefix_to(s, m));
+    }
+}
+
+pub proof fn lemma_single_pred_no_df(g: G, i: usize, q: usize)
+    requires wf(g), i < g.len(), forall|x: usize| g[i as int].contains(x) <==> x == q
+    ensures forall|a: usize| !in_df(g, a, i)
+{
+    assert forall|a: usize| !in_df(g, a, i) by {
+        if in_df(g, a, i) {
+            let q2 = choose|q2: usize| #[trigger] g[i as int].contains(q2) && dom(g, a, q2);
+            assert(q2 == q);
+            // a dominates i, because every path to i ends with the edge q -> i
+            assert forall|s: Seq<usize>| is_path(g, s) && s.last() == i implies #[trigger] s.contains(a) by {
+                if s.len() == 1 {
+                    assert(s[0] == 0 && i == 0);
+                    assert(g[0].contains(q));
+                } else {
+                    let e = s.len() - 2;
+                    assert(g[s[e + 1] as int].contains(s[e]));
+                    lemma_prefix_path(g, s, e);
+                    let t = prefix_to(s, e);
+                    assert(t.contains(a));
+                    let m = choose|m: int| 0 <= m < t.len() && t[m] == a;
+                    assert(s[m] == a);
+                }
+            }
+            assert(a == i);
+            assert(reachable(g, i));
+            let s = choose|s: Seq<usize>| is_path(g, s) && #[trigger] s.last() == i;
+            lemma_single_pred_descent(g, i, q, s);
+        }
+    }
+}
+
+pub proof fn lemma_no_pred_no_df(g: G, i: usize)
+    requires forall|x: usize| !g[i as int].contains(x)
+    ensures forall|a: usize| !in_df(g, a, i)
+{
+}
+
+// start of the walk from predecessor j of i: the immediate dominator d of i dominates j
+pub proof fn lemma_walk_start(g: G, i: usize, d: usize, j: usize)
+    requires wf(g), i < g.len(), is_idom(g, d, i), g[i as int].contains(j)
+    ensures dom(g, j, j), dom(g, d, j), j < g.len()
+{
+    lemma_dom_refl(g, j);
+    lemma_dom_step(g, d, i, j);
+}
+
+// one step k -> k2 = idom(k) of the walk (k != d)
+pub proof fn lemma_walk_step(g: G, i: usize, d: usize, j: usize, k: usize, k2: usize)
+    requires wf(g), i < g.len(), is_idom(g, d, i), k < g.len(), j < g.len(), dom(g, k, j), dom(g, d, k), k != d, is_idom(g, k2, k)
+    ensures
+        k2 < g.len(), dom(g, k2, j), dom(g, d, k2),
+        dom(g, k, j) && !dom(g, k, k2) && !sdom(g, k, i),
+        forall|a: usize| a < g.len() ==> ((dom(g, a, j) && !dom(g, a, k2)) <==> ((dom(g, a, j) && !dom(g, a, k)) || a == k)),
+{
+    lemma_dom_trans(g, k2, k, j);
+    assert(sdom(g, d, k));
+    assert(dom(g, d, k2));
+    if dom(g, k, k2) { lemma_dom_antisym(g, k, k2); }
+    if sdom(g, k, i) { assert(dom(g, k, d)); lemma_dom_antisym(g, k, d); }
+    assert forall|a: usize| a < g.len() implies ((dom(g, a, j) && !dom(g, a, k2)) <==> ((dom(g, a, j) && !dom(g, a, k)) || a == k)) by {
+        if dom(g, a, k2) { lemma_dom_trans(g, a, k2, k); }
+        if dom(g, a, k) && a != k { assert(sdom(g, a, k)); assert(dom(g, a, k2)); }
+    }
+}
+
+// end of the walk (k == d): what was inserted is exactly "dominates j but does not strictly dominate i"
+pub proof fn lemma_walk_end(g: G, i: usize, d: usize, j: usize)
+    requires wf(g), i < g.len(), is_idom(g, d, i)
+    ensures forall|a: usize| a < g.len() ==> ((dom(g, a, j) && !dom(g, a, d)) <==> (dom(g, a, j) && !sdom(g, a, i)))
+{
+    assert forall|a: usize| a < g.len() implies ((dom(g, a, j) && !dom(g, a, d)) <==> (dom(g, a, j) && !sdom(g, a, i))) by {
+        if dom(g, a, d) {
+            lemma_dom_trans(g, a, d, i);
+            if a == i { lemma_dom_antisym(g, d, i); }
+        }
+        if sdom(g, a, i) { assert(dom(g, a, d)); }
+    }
+}
+
+// the entry never stops the walk early: if d dominates the entry then d is the entry
+pub proof fn lemma_walk_no_break(g: G, d: usize, k: usize)
+    requires wf(g), dom(g, d, k), k == 0
+    ensures d == 0
+{
+    lemma_dom_entry(g, d);
+}
+
+
+// ---------------------------------------------------------------------------------------------
+// the assembled tree
+pub closed spec fn dt_dominators<T: DirectedGraphNode>(t: DominatorTree<T>) -> Seq<HashSet<usize>> { t.dominators@ }
+pub closed spec fn dt_idoms<T: DirectedGraphNode>(t: DominatorTree<T>) -> Seq<Option<usize>> { t.immediate_dominators@ }
+pub closed spec fn dt_children<T: DirectedGraphNode>(t: DominatorTree<T>) -> Seq<HashSet<usize>> { t.dominator_successors@ }
+pub closed spec fn dt_frontier<T: DirectedGraphNode>(t: DominatorTree<T>) -> Seq<HashSet<usize>> { t.dominance_frontier@ }
+pub open spec fn dt_ok<T: DirectedGraphNode>(g: G, t: DominatorTree<T>) -> bool {
+    dom_facts(g, dt_dominators(t))
+    && idoms_ok(g, dt_idoms(t))
+    && dt_children(t).len() == g.len() && succ_ok(g, dt_idoms(t), dt_children(t), g.len() as int)
+    && df_done(g, dt_frontier(t), g.len() as int)
+}
